@@ -783,7 +783,7 @@ def work_types(args):
     import time
     os.makedirs(wd, exist_ok=True)
     summ = {"cases": 0, "judged": 0, "nontrivial": set(), "undefined": 0, "refrej": 0, "dis": 0, "leaves": 0,
-            "fails": [], "flagcount": {}, "incomplete": False, "samples": [], "invalid": 0, "dis_samples": []}
+            "fails": [], "flagcount": {}, "incomplete": False, "samples": [], "invalid": 0, "dis_samples": [], "case_samples": []}
     batch = []
     bno = [0]
 
@@ -806,6 +806,9 @@ def work_types(args):
             if i in rej:
                 continue
             summ["judged"] += 1
+            if len(summ["case_samples"]) < 2 and len(c.leaves) > 2 and summ["judged"] % 97 == 5:
+                summ["case_samples"].append({"declaration": M.decl(c.ty, "x"), "initializer": c.text, "flags": sorted(c.flags),
+                                             "leaves": len(c.leaves), "static_only": c.static_only})
             summ["leaves"] += len(c.leaves) * (1 if c.static_only else 2)
             if len(c.flags - {'trailing-comma'}) > 0 or len(c.leaves) > 1:
                 summ["nontrivial"].add(hashlib.sha1((repr(c.ty) + c.text).encode()).digest()[:8])
@@ -894,6 +897,8 @@ def run(ctx):
         incomplete += 1 if s["incomplete"] else 0
         for x in s["samples"] + s["dis_samples"]:
             ctx.sample({"note": x}, limit=10)
+        for x in s["case_samples"]:
+            ctx.sample(x, limit=6)
     if tot["invalid"]:
         raise core.HarnessError("generator produced %d initializers the model calls invalid (see evidence samples)" % tot["invalid"])
     if incomplete:
